@@ -17,6 +17,17 @@ pub fn c01_fs() -> Fs {
     fs.add(d, "xy", K::File);
     let e = fs.add(0, "e", K::Dir);
     fs.add(e, "xy", K::File);
+    // w/{d/{x1,xy}, ky, x01..x12, z}: a run of twelve consecutive entries matching 'x*' (state carried
+    // from entry to entry needs more entries than r has)
+    let w = fs.add(0, "w", K::Dir);
+    let wd = fs.add(w, "d", K::Dir);
+    fs.add(wd, "x1", K::File);
+    fs.add(wd, "xy", K::File);
+    fs.add(w, "ky", K::File);
+    for i in 1..=12 {
+        fs.add(w, &format!("x{i:02}"), K::File);
+    }
+    fs.add(w, "z", K::File);
     fs
 }
 
@@ -121,6 +132,28 @@ pub fn expected_output(fs: &Fs, root: &str, toks: &[Tok], ex: &Option<expr::Ex>)
             quit: st.quit,
         }
     });
+    st.out
+}
+
+/// Reference stdout for `find ROOTS... <toks>`: the starting points one after the other, nothing
+/// further once -quit was evaluated.
+pub fn expected_output_roots(fs: &Fs, roots: &[&str], toks: &[Tok], ex: &Option<expr::Ex>) -> Vec<u8> {
+    let has_action = toks.iter().any(|t| t.is_action());
+    let cfg = WalkCfg { follow: Follow::P, mindepth: 0, maxdepth: usize::MAX, depth_first: false };
+    let mut notes = WalkNotes::default();
+    let mut st = expr::EvalState::default();
+    for root in roots {
+        if st.quit {
+            break;
+        }
+        tree::walk(fs, 0, root, &cfg, &mut notes, &mut |v| {
+            let name = v.path.rsplit('/').next().unwrap_or(&v.path);
+            let e = expr::Entry { path: &v.path, name, is_dir: fs.is_dir(v.eff) };
+            st.prune = false;
+            expr::eval_top(ex, has_action, &e, &mut st);
+            tree::Decision { prune: st.prune, quit: st.quit }
+        });
+    }
     st.out
 }
 
